@@ -375,6 +375,29 @@ func genDir(r *lib.RNG, o Options, client bool) []Elem {
 	return es
 }
 
+// EdgeStreams replaces the streams of a script by twelve whose HEADERS carry one field value of
+// '~' octets (never Huffman-shortened) sized so that the header block the relay re-encodes
+// lands on every length from about 60 below to a few above SETTINGS_MAX_FRAME_SIZE (16384),
+// alternately with and without the five priority octets that count against the first frame;
+// the response HEADERS of each stream carries the same field. Script number e covers offsets
+// 6e .. 6e+5 of a 67-value sweep, so twelve scripts cover it with and without priority.
+func EdgeStreams(sc *Script, r *lib.RNG, e int) {
+	sc.Streams = nil
+	for j := 0; j < 12; j++ {
+		t := e*12 + j
+		l := 16324 + (t/2)%67
+		v := strings.Repeat("~", l)
+		ch := Elem{Kind: "H", End: true, Hdrs: []hpack.HeaderField{{Name: ":method", Value: "GET"}, {Name: ":scheme", Value: "https"},
+			{Name: ":authority", Value: "h2.test"}, {Name: ":path", Value: "/e"}, {Name: "x-edge", Value: v}}}
+		if t%2 == 0 {
+			ch.Prio = http2.PriorityParam{Weight: uint8(1 + r.Intn(255))}
+		}
+		sh := Elem{Kind: "H", Hdrs: []hpack.HeaderField{{Name: ":status", Value: "200"}, {Name: "x-edge", Value: v}}}
+		sc.Streams = append(sc.Streams, StreamScript{ID: uint32(1 + 2*j), C2S: []Elem{ch}, S2C: []Elem{sh, {Kind: "D", Data: r.Bytes(1 + r.Intn(100)), End: true}}})
+	}
+	sc.Features["frame-size-edge-headers"] = true
+}
+
 func GenScript(r *lib.RNG, o Options) *Script {
 	s := &Script{Features: map[string]bool{}}
 	ns := r.Range(1, o.MaxStreams)
